@@ -81,8 +81,26 @@ func Verif_H02Reopen() {
 	mB := m.clone()
 	apiStep(sB, c, keys, mB, op, "after-reopen")
 	checkAll(sB, keys, mB, "after-reopen")
+	mA := m
+	if vrt.Param("fourthopen", 0) != 0 {
+		// the store reopened through the snapshot keeps working too, and what it writes is
+		// found again by a later recovery scan (no snapshot)
+		mA = m.clone()
+		apiStep(sA, c, keys, mA, op, "after-snapshot-reopen")
+		checkAll(sA, keys, mA, "after-snapshot-reopen")
+	}
 	vrt.Assert(sA.Close() == nil, "closeA-no-error")
 	vrt.Assert(sB.Close() == nil, "closeB-no-error")
+	if vrt.Param("fourthopen", 0) != 0 {
+		vrt.Assert(os.Remove(filepath.Join(dir, "i.buckets")) == nil, "setup-remove-snapshot")
+		sD, err := openCfg(dir, c)
+		vrt.Assert(err == nil, "fourth-open-no-error")
+		if err != nil {
+			return
+		}
+		checkAll(sD, keys, mA, "fourth-open-rescan")
+		vrt.Assert(sD.Close() == nil, "closeD-no-error")
+	}
 	// and once more through the snapshot written by sB
 	sC, err := openCfg(dirB, c)
 	vrt.Assert(err == nil, "third-open-no-error")
